@@ -75,8 +75,9 @@ class Session:
         self.ev.append({"op": "exec", "d": d, "uid": uid, "tid": tid, "fired": fired})
         return d, tid
 
-    def reply(self, tid, uid, cuts=()):
-        fr = pyframe("tcp" if self.variant == "dict" else "rtu", tid, 0, uid, bytes([3, 2, 0x12, 0x34]))
+    def reply(self, tid, uid, cuts=(), exc=False):
+        # (an exception reply is a reply like any other to the pairing: it fires the deferred of its request, via the callback)
+        fr = pyframe("tcp" if self.variant == "dict" else "rtu", tid, 0, uid, bytes([0x83, 2]) if exc else bytes([3, 2, 0x12, 0x34]))
         pieces, pos = [], 0
         for c in list(cuts) + [len(fr)]:
             pieces.append(fr[pos:c])
@@ -184,7 +185,7 @@ def history(tid, variant, rng, tier):
                 d = min(out)                   # a serial line answers in order
             t, uid = out.pop(d)
             cuts = (rng.randint(1, 8),) if rng.random() < 0.3 else ()
-            s.reply(t, uid, cuts)
+            s.reply(t, uid, cuts if rng.random() < 0.8 else (), exc=rng.random() < 0.2)
             if rng.random() < 0.15:
                 s.reply(t, uid)                # duplicate
         elif c < 0.85 and not lost:
